@@ -43,7 +43,8 @@ MTab(f) == CASE f = "target" -> {<<"host", "acc">>, <<"vip", "acc">>, <<"route",
   [] f = "tPort" -> {<<"ok", "acc">>, <<"absent", "rej">>, <<"null", "rej">>, <<"strnum", "rej">>, <<"badtype", "rej">>}
   [] f = "tWeight" -> {<<"ok", "acc">>, <<"absent", "rej">>, <<"null", "rej">>, <<"strnum", "rej">>, <<"zero", "rej">>, <<"badtype", "rej">>}
   [] f = "whole" -> {<<"ok", "acc">>, <<"missing", "rej">>, <<"emptyfile", "rej">>, <<"garbage", "rej">>, <<"truncated", "rej">>, <<"toparray", "rej">>, <<"topstring", "rej">>, <<"topnull", "rej">>, <<"trailing", "acc">>, <<"bom", "rej">>}
-MClass(f, st) == (CHOOSE p \in MTab(f) : p[1] = st)[2]
+MClassMap == [f \in AllFields |-> [st \in StatesMap[f] |-> (CHOOSE p \in MTab(f) : p[1] = st)[2]]]
+MClass(f, st) == MClassMap[f][st]
 
 NoRules(st) == st \in {"absent", "null", "empty", "vnull", "vempty"}
 MVerdict(k, s) ==
